@@ -7,6 +7,27 @@ Prints, per property, the check's exit status and its VIOLATION / summary lines.
 restored with `git checkout -- .` in every case (also on errors / Ctrl-C)."""
 import os, subprocess, sys
 
+def run_on_copy(name, patch, props, tier, only):
+    wt = "/tmp/seedrun/" + name
+    subprocess.run(["git", "-C", "/repo", "worktree", "remove", "--force", wt], capture_output=True)
+    os.makedirs("/tmp/seedrun", exist_ok=True)
+    subprocess.check_call(["git", "-C", "/repo", "worktree", "add", "-q", "--detach", wt, "HEAD"])
+    try:
+        if subprocess.run(["git", "-C", wt, "apply", patch]).returncode != 0:
+            print("patch does not apply"); return 2
+        env = dict(os.environ, VERIF_BUILD_TAG="seed-" + name, VERIF_REPO=wt)
+        if only:
+            env["VERIF_ONLY"] = only
+        for p in props:
+            r = subprocess.run(["/verif/check", p, "--tier", tier], cwd="/verif", env=env, capture_output=True, text=True)
+            lines = [l for l in r.stdout.splitlines() if l.startswith(("VIOLATION", "KNOWN-FINDING", "NON-REPRODUCING", "FAIL", "INCONCLUSIVE", "  harness", "  primitive")) or " harness runs," in l]
+            print("== %s exit %d" % (p, r.returncode)); print("\n".join(lines[:30])); sys.stdout.flush()
+    finally:
+        subprocess.run(["git", "-C", "/repo", "worktree", "remove", "--force", wt], capture_output=True)
+        subprocess.run(["rm", "-rf", "/verif/.build/seed-" + name])
+    return 0
+
+
 def main():
     args = sys.argv[1:]
     tier, only = "quick", None
@@ -14,7 +35,12 @@ def main():
         i = args.index("--tier"); tier = args[i + 1]; del args[i:i + 2]
     if "--only" in args:
         i = args.index("--only"); only = args[i + 1]; del args[i:i + 2]
+    copy = None
+    if "--copy" in args:  # development aid: apply to a scratch worktree instead of /repo itself
+        i = args.index("--copy"); copy = args[i + 1]; del args[i:i + 2]
     patch, props = os.path.abspath(args[0]), args[1:]
+    if copy:
+        return run_on_copy(copy, patch, props, tier, only)
     st = subprocess.run(["git", "-C", "/repo", "status", "--porcelain", "--untracked-files=no"], capture_output=True, text=True).stdout
     if st.strip():
         print("refusing: /repo has uncommitted changes:\n" + st); return 2
